@@ -1366,7 +1366,11 @@ func (p *sparePool) take() (rhp.ContractRevision, error) {
 func (p *sparePool) giveBack(c rhp.ContractRevision) { p.spares = append(p.spares, c) }
 
 func newSparePool(f *family, batch int) (*sparePool, error) {
-	l, c, err := newLabWithContract(rhpmitm.Options{HostBlocks: 30, RenterBlocks: 30}, types.Siacoins(100), types.Siacoins(100))
+	return newSparePoolOpt(f, batch, rhpmitm.Options{HostBlocks: 30, RenterBlocks: 30})
+}
+
+func newSparePoolOpt(f *family, batch int, opt rhpmitm.Options) (*sparePool, error) {
+	l, c, err := newLabWithContract(opt, types.Siacoins(100), types.Siacoins(100))
 	if err != nil {
 		return nil, err
 	}
